@@ -47,6 +47,15 @@ theorem hashes_exact (H : Bytes → Bytes) (st : Store) (text : Bytes) (prefs : 
   simp only [reset, h, Bool.false_eq_true, if_false]
   exact hashes_build H (listed text) prefs x
 
+/-- The same with multiplicity: a digest is returned once for every list line carrying a name with
+that digest (duplicated lines are not merged) and every occurrence of its prefix among `prefs`. -/
+theorem hashes_multiplicity (H : Bytes → Bytes) (st : Store) (text : Bytes) (prefs : List Bytes) (x : Bytes)
+    (h : tooLong text = false) :
+    (hashes (reset H st text).1 prefs).count x =
+      prefs.count (x.take 2) * (listed text).countP (fun n => H n == x) := by
+  simp only [reset, h, Bool.false_eq_true, if_false]
+  exact hashes_count H (listed text) prefs x
+
 /-- Comments and blank lines are never names. -/
 theorem listed_nonempty_noncomment (text n : Bytes) (h : n ∈ listed text) :
     n ≠ [] ∧ n.head? ≠ some sharp := by
@@ -55,6 +64,37 @@ theorem listed_nonempty_noncomment (text n : Bytes) (h : n ∈ listed text) :
   cases n with
   | nil => simp [keepLine] at h
   | cons c r => simpa [keepLine] using h.2
+
+/-! ### What "a name of the list" means, without the parser -/
+
+/-- `n` is a name of the list text: some line of the text (a stretch without line feeds between
+the start of the text or a line feed and the end of the text or a line feed), minus one trailing
+carriage return, is `n`; and `n` is neither empty nor a `#` comment.  Duplicated lines give the
+same name; nothing else in the text does. -/
+def IsName (text n : Bytes) : Prop :=
+  n ≠ [] ∧ n.head? ≠ some sharp ∧ ∃ raw, IsLine lf text raw ∧ n = dropCR raw
+
+/-- The parser of `Storage.Reset` finds exactly the names of the text. -/
+theorem mem_listed_iff (text n : Bytes) : n ∈ listed text ↔ IsName text n := by
+  unfold IsName
+  constructor
+  · intro h
+    have hn := listed_nonempty_noncomment text n h
+    unfold listed at h
+    rw [List.mem_filter, List.mem_map] at h
+    obtain ⟨⟨raw, hraw, he⟩, _⟩ := h
+    exact ⟨hn.1, hn.2, raw, (mem_splitOn lf text raw).1 hraw, he.symm⟩
+  · rintro ⟨h1, h2, raw, hraw, he⟩
+    unfold listed
+    rw [List.mem_filter, List.mem_map]
+    refine ⟨⟨raw, (mem_splitOn lf text raw).2 hraw, he.symm⟩, ?_⟩
+    cases n with
+    | nil => exact absurd rfl h1
+    | cons c r =>
+      simp only [keepLine, bne_iff_ne, ne_eq]
+      intro hc
+      apply h2
+      simp [hc]
 
 /-! ### Across resets -/
 
@@ -267,6 +307,180 @@ theorem pass_iff (stores : Nat → Store) (cfg : MatcherCfg) (host : Bytes) (qt 
         · intro hall; exact absurd hall this
   · simp [hq]
 
+/-! ### Prefix strings, declaratively -/
+
+/-- A well-formed prefix string: empty, or every dot-separated piece is four or eight hex digits. -/
+def WfPrefixStr (s : Bytes) : Prop := s = [] ∨ ∀ p ∈ splitOn dot s, WfPiece p
+
+/-- `b` (two bytes) is one of the prefixes a prefix string asks for: the first four characters of
+one of its pieces spell `b` in hex (a legacy eight-character piece is truncated to four). -/
+def Requested (s b : Bytes) : Prop := s ≠ [] ∧ ∃ p ∈ splitOn dot s, decodeHex (p.take 4) = some b
+
+/-- `prefixesFromStr` fails exactly on the malformed strings: some piece is not four or eight
+characters long, or contains a character that is not a hex digit (anywhere, also in the
+discarded tail of a legacy piece). -/
+theorem prefixesFromStr_none_iff (s : Bytes) : prefixesFromStr s = none ↔ ¬ WfPrefixStr s := by
+  unfold prefixesFromStr WfPrefixStr
+  by_cases hs : s = []
+  · simp [hs]
+  · simp only [hs, if_false, false_or]
+    rw [twoPass_none]
+    constructor
+    · rintro ⟨p, hp, hv⟩ hall
+      have := (pieceVal_isSome p).2 (hall p hp)
+      rw [hv] at this; cases this
+    · intro hn
+      apply Classical.byContradiction
+      intro hex
+      apply hn
+      intro p hp
+      rw [← pieceVal_isSome]
+      cases hv : pieceVal p with
+      | none => exact absurd ⟨p, hp, hv⟩ hex
+      | some x => rfl
+
+/-- On a well-formed string it returns exactly the requested prefixes. -/
+theorem prefixesFromStr_requested (s : Bytes) (prefs : List Bytes) (h : prefixesFromStr s = some prefs)
+    (b : Bytes) : b ∈ prefs ↔ Requested s b := by
+  have hwf : WfPrefixStr s := by
+    apply Classical.byContradiction
+    intro hn
+    rw [← prefixesFromStr_none_iff, h] at hn
+    cases hn
+  unfold prefixesFromStr at h
+  unfold Requested
+  by_cases hs : s = []
+  · simp only [hs, if_true, Option.some.injEq] at h
+    subst h
+    simp [hs]
+  · simp only [hs, if_false] at h
+    rw [twoPass_some _ _ h]
+    rcases hwf with hwf | hwf
+    · exact absurd hwf hs
+    · simp only [ne_eq, hs, not_false_eq_true, true_and]
+      constructor
+      · rintro ⟨p, hp, hv⟩; exact ⟨p, hp, ((pieceVal_eq_some p b).1 hv).2⟩
+      · rintro ⟨p, hp, hv⟩; exact ⟨p, hp, (pieceVal_eq_some p b).2 ⟨hwf p hp, hv⟩⟩
+
+/-- The hex strings of the answers determine the digests, and a digest's string begins with the
+string of its prefix. -/
+theorem hexEncode_injective (a b : Bytes) (h : hexEncode a = hexEncode b) : a = b := by
+  have := decodeHex_hexEncode a
+  rw [h, decodeHex_hexEncode] at this
+  exact (Option.some.inj this).symm
+
+/-! ### End to end, across any history of resets -/
+
+theorem lastGood_good (i : Nat) (ops : List (Nat × Bytes)) (t : Bytes) (h : lastGood i ops = some t) :
+    tooLong t = false := by
+  induction ops with
+  | nil => simp [lastGood] at h
+  | cons op r ih =>
+    obtain ⟨j, t'⟩ := op
+    simp only [lastGood] at h
+    cases hl : lastGood i r with
+    | some t'' => rw [hl] at h; simp only [Option.some.injEq] at h; subst h; exact ih hl
+    | none =>
+      rw [hl] at h
+      by_cases hc : j = i ∧ tooLong t' = false
+      · simp only [hc, and_self, if_true, Option.some.injEq] at h; subst h; exact hc.2
+      · simp [hc] at h
+
+theorem findSuffix_unique (cfg : MatcherCfg) (host suf : Bytes) (i : Nat) (hm : (suf, i) ∈ cfg)
+    (hs : suf <:+ host) (hu : ∀ e ∈ cfg, e.1 <:+ host → e = (suf, i)) :
+    findSuffix cfg host = some (suf, i) := by
+  unfold findSuffix
+  cases hf : cfg.find? (fun e => decide (e.1 <:+ host)) with
+  | none =>
+    rw [List.find?_eq_none] at hf
+    have := hf (suf, i) hm
+    simp at this
+    exact absurd hs this
+  | some e =>
+    have h1 := List.find?_some hf
+    have h2 := List.mem_of_find?_eq_some hf
+    rw [hu e h2 (by simpa using h1)]
+
+/-- The whole TXT clause.  After any history of resets, for a question name made of a prefix
+string and the suffix of storage `i` (and no other configured suffix matching): a malformed prefix
+string is REFUSED; a well-formed one is answered with exactly the digests of the names listed by
+the last successful reset of storage `i` whose first two bytes are requested.  Nothing is passed on
+in either case. -/
+theorem txt_query_spec (H : Bytes → Bytes) (stores : Nat → Store) (ops : List (Nat × Bytes))
+    (cfg : MatcherCfg) (pstr suf : Bytes) (i : Nat) (text : Bytes)
+    (hm : (suf, i) ∈ cfg) (hu : ∀ e ∈ cfg, e.1 <:+ (pstr ++ suf) → e = (suf, i))
+    (hl : lastGood i ops = some text) :
+    (¬ WfPrefixStr pstr → respond (runResets H stores ops) cfg (pstr ++ suf) 16 = .refused) ∧
+    (WfPrefixStr pstr → ∃ hs, respond (runResets H stores ops) cfg (pstr ++ suf) 16 = .txt hs ∧
+      ∀ x, x ∈ hs ↔ ∃ n ∈ listed text, H n = x ∧ Requested pstr ((H n).take 2)) := by
+  have hf := findSuffix_unique cfg (pstr ++ suf) suf i hm (List.suffix_append _ _) hu
+  have ht : (pstr ++ suf).take ((pstr ++ suf).length - (suf, i).1.length) = pstr := by
+    have : (pstr ++ suf).length - suf.length = pstr.length := by simp
+    simp only [this]
+    exact List.take_left' rfl
+  constructor
+  · intro hw
+    exact bad_prefix_refused _ cfg _ (suf, i) hf (by rw [ht]; exact (prefixesFromStr_none_iff pstr).2 hw)
+  · intro hw
+    cases hp : prefixesFromStr pstr with
+    | none => exact absurd hw ((prefixesFromStr_none_iff pstr).1 hp)
+    | some prefs =>
+      refine ⟨_, prefix_query_answer _ cfg _ (suf, i) prefs hf (by rw [ht]; exact hp), ?_⟩
+      intro x
+      rw [history_last_reset, hl]
+      simp only
+      rw [hashes_build]
+      constructor
+      · rintro ⟨n, hn, he, hpm⟩
+        exact ⟨n, hn, he, (prefixesFromStr_requested pstr prefs hp _).1 hpm⟩
+      · rintro ⟨n, hn, he, hr⟩
+        exact ⟨n, hn, he, (prefixesFromStr_requested pstr prefs hp _).2 hr⟩
+
+/-- `s` is one of the names looked up for `d`: `d` itself or a parent domain of it, of at most four
+labels, strictly below the stop name (the ICANN public suffix, see `stop_name_is_walk`). -/
+def Candidate (ps : Bytes → Bytes × Bool) (d s : Bytes) : Prop :=
+  d ≠ [] ∧ DotSuffix s d ∧ countDots s ≤ 3 ∧
+    (DotSuffix (effSuffix ps d) d ∧ countDots (effSuffix ps d) ≤ 3 → (effSuffix ps d).length < s.length)
+
+/-- The whole filtering clause.  After any history of resets of the three storages, the filter
+over storage `i` treats a host as listed ⇔ the question is A, AAAA or HTTPS and the host or one of
+its parents (at most four labels, below the public suffix) is a name of the list text of the last
+successful reset of storage `i`: resets of other storages and failed resets make no difference. -/
+theorem filter_verdict_spec (H : Bytes → Bytes) (hH : Injective H) (ps : Bytes → Bytes × Bool)
+    (stores : Nat → Store) (ops : List (Nat × Bytes)) (i : Nat) (text host : Bytes) (qt : Nat)
+    (hl : lastGood i ops = some text) :
+    (filterRule H ps (runResets H stores ops i) host qt).isSome = true ↔
+      (qt = 1 ∨ qt = 28 ∨ qt = 65) ∧ ∃ s, Candidate ps host s ∧ s ∈ listed text := by
+  have hg := lastGood_good i ops text hl
+  have hst : runResets H stores ops i = (reset H (stores i) text).1 := by
+    rw [history_last_reset, hl]; simp [reset, hg]
+  rw [hst, filter_iff_listed H hH ps (stores i) text host qt hg]
+  constructor
+  · rintro ⟨hq, s, hs, hlst⟩
+    exact ⟨hq, s, (hashable_subdomains_spec ps host s).1 hs, hlst⟩
+  · rintro ⟨hq, s, hs, hlst⟩
+    exact ⟨hq, s, (hashable_subdomains_spec ps host s).2 hs, hlst⟩
+
+/-- Before the first successful reset an (initially empty) storage lists nothing. -/
+theorem empty_never_filters (H : Bytes → Bytes) (ps : Bytes → Bytes × Bool) (ops : List (Nat × Bytes))
+    (i : Nat) (host : Bytes) (qt : Nat) (hl : lastGood i ops = none) :
+    filterRule H ps (runResets H (fun _ => Store.empty) ops i) host qt = none := by
+  rw [history_last_reset, hl]
+  unfold filterRule firstMatch
+  split
+  · have : List.find? (fun s => «matches» H Store.empty s) (hashableSubdomains ps host) = none := by
+      rw [List.find?_eq_none]; intro s _; simp [«matches», matchesSum, Store.empty]
+    rw [this]
+  · rfl
+
+/-- `NewStorage(text)` is an empty storage reset with `text`. -/
+theorem newStorage_spec (H : Bytes → Bytes) (text : Bytes) (h : tooLong text = false) :
+    newStorage H text = (some (build H (listed text)), some (listed text).length) := by
+  unfold newStorage
+  by_cases ht : text = []
+  · subst ht; rfl
+  · simp [ht, reset, h]
+
 /-! ### The two defects of the unchanged tree (fixed by a7f0f3a and 693a9d2) -/
 
 def wfPiece (p : Bytes) : Bool := (p.length == 4 || p.length == 8) && p.all isHex
@@ -387,13 +601,45 @@ example : respond (fun _ => Store.empty) [([46, 115], 0)] [97, 98, 99, 46, 115] 
 example : respond (fun _ => build (fun x => x) [[171, 205, 1]]) [([46, 115], 0)]
     [97, 98, 99, 100, 46, 115] 16 = .txt [[171, 205, 1]] := by decide
 example : lastGood 0 [(0, [97]), (1, [98]), (0, [99])] = some [99] := by decide
+/-- A duplicated line is answered twice. -/
+example : hashes (reset (fun x => x) Store.empty [97, 98, 99, 10, 97, 98, 99, 10]).1 [[97, 98]] =
+    [[97, 98, 99], [97, 98, 99]] := by decide
+/-- A name in the declarative sense: `c` from the last, unterminated line `c\r`. -/
+example : IsName [97, 10, 35, 98, 13, 10, 10, 99, 13] [99] :=
+  ⟨by decide, by decide, [99, 13], ⟨by decide, [97, 10, 35, 98, 13, 10, 10], [], by decide,
+    Or.inr ⟨[97, 10, 35, 98, 13, 10], by decide⟩, Or.inl rfl⟩, by decide⟩
+/-- A well-formed prefix string with a legacy piece, the prefix it requests, and a malformed one. -/
+example : WfPrefixStr [97, 98, 99, 100, 48, 49, 50, 51, 46, 48, 48, 70, 102] := by
+  right; intro p hp
+  have : p = [97, 98, 99, 100, 48, 49, 50, 51] ∨ p = [48, 48, 70, 102] := by
+    have h : splitOn dot [97, 98, 99, 100, 48, 49, 50, 51, 46, 48, 48, 70, 102] =
+      [[97, 98, 99, 100, 48, 49, 50, 51], [48, 48, 70, 102]] := by decide
+    rw [h] at hp; simpa using hp
+  rcases this with h | h <;> subst h <;> exact ⟨by decide, by decide⟩
+example : Requested [97, 98, 99, 100, 48, 49, 50, 51, 46, 48, 48, 70, 102] [171, 205] :=
+  ⟨by decide, [97, 98, 99, 100, 48, 49, 50, 51], by decide, by decide⟩
+example : ¬ WfPrefixStr [97, 98, 99, 100, 122, 122, 122, 122] := by
+  rw [← prefixesFromStr_none_iff]; decide
+/-- The hypotheses of `txt_query_spec` and `filter_verdict_spec` hold for a one-suffix matcher
+after a failed and a successful reset. -/
+example : (([46, 115], 0) : Bytes × Nat) ∈ [(([46, 115] : Bytes), 0)] ∧
+    (∀ e ∈ [(([46, 115] : Bytes), 0)], e.1 <:+ ([97, 98, 99, 100] ++ [46, 115]) → e = ([46, 115], 0)) ∧
+    lastGood 0 [(0, [97, 10]), (1, [98])] = some [97, 10] :=
+  ⟨by simp, by intro e he _; simpa using he, by decide⟩
+example : Candidate psEx [97, 46, 98, 46, 99] [98, 46, 99] :=
+  (hashable_subdomains_spec psEx _ _).1 (by decide)
+example : cut4Scan [97, 46, 98, 46, 99, 46, 100, 46, 101, 46, 102] = [99, 46, 100, 46, 101, 46, 102] := by decide
+example : hexEncode [171, 205, 0, 255] = [97, 98, 99, 100, 48, 48, 102, 102] := by decide
+example : (newStorage (fun x => x) [97, 10, 35, 98, 10]).2 = some 1 := by decide
 
 #print axioms reset_replaces
 #print axioms reset_failed_keeps
 #print axioms matches_iff_hash_listed
 #print axioms matches_iff_listed
 #print axioms hashes_exact
+#print axioms hashes_multiplicity
 #print axioms listed_nonempty_noncomment
+#print axioms mem_listed_iff
 #print axioms history_last_reset
 #print axioms hashable_subdomains_spec
 #print axioms public_suffix_not_hashed
@@ -405,6 +651,15 @@ example : lastGood 0 [(0, [97]), (1, [98]), (0, [99])] = some [99] := by decide
 #print axioms bad_prefix_refused
 #print axioms prefix_query_answer
 #print axioms pass_iff
+#print axioms prefixesFromStr_none_iff
+#print axioms prefixesFromStr_requested
+#print axioms hexEncode_injective
+#print axioms lastGood_good
+#print axioms findSuffix_unique
+#print axioms txt_query_spec
+#print axioms filter_verdict_spec
+#print axioms empty_never_filters
+#print axioms newStorage_spec
 #print axioms legacy_tail_counterexample
 #print axioms private_suffix_counterexample
 #print axioms nested_private_counterexample
